@@ -1,7 +1,7 @@
 SPECIFICATION Spec
 CONSTANTS
   Titles = {"absent", "empty", "short", "long"}
-  Years = {"absent", "text2008", "bin2008", "textempty", "textabc", "bin3", "bin0", "textutf", "textbad", "bin1", "bin5", "textmax", "textover", "text65536", "text007", "binmax", "bindigits", "int0", "int4"}
+  Years = {"absent", "text2008", "bin2008", "textempty", "textabc", "bin3", "bin0", "textutf", "textbad", "bin1", "bin5", "textmax", "textover", "text65536", "text007", "binmax", "bindigits", "int0", "int4", "binzero"}
   Posters = {"absent", "empty", "one", "big"}
   Summaries = {"absent", "short", "utf8"}
   Unknowns = {"none", "before", "after", "between", "tiny", "named", "kids"}
